@@ -1,7 +1,7 @@
 //! stream `rules` — C38: every rule of the era validators, alone (through `verif_hooks::rule_verdicts`) and composed
 //! (`validate_txs`), on accepted scenarios and on scenarios changed by rule-specific mutators.
 //!
-//!   rl <era> <base> <mutator>* | V <rule>=<ok|Error>* | F <key>=<value>*
+//!   rl <era> <base> <mutator>* | V <rule>=<ok|Error>* | F <key>=<value>* | VAL .. | EX .. | WIT ..
 //!
 //! `<base>` = `fx:<fixture name>` or `sy:<era>[:<body option>]*` (a transaction synthesized with own keys, so that the
 //! *body* can be varied and is signed again). Body options: `ins0` (no inputs) `ttl=<n>` `nottl` `start=<n>` `netid=<n>`
@@ -10,10 +10,17 @@
 //! Mutators that leave the body alone: `slot=<n>` `envnet=<n>` `maxsize=<n>` `minfee=<a>:<b>` `coins=<n>` `maxval=<n>`
 //! `maxcol=<n>` `pct=<n>` `nocost=<1|2|3>` (environment / protocol parameters), `dropin=<i>` `dropcol=<i>` `dropref=<i>`
 //! `colscript=<i>` `colassets=<i>` `colcoin=<i>:<n>` (UTxO set), `dropwit=<k>` (field <k> of the witness set: 1 native
-//! scripts, 3/6/7 Plutus v1/v2/v3 scripts, 4 datums, 5 redeemers) `dropaux` `auxflip` (auxiliary data).
+//! scripts, 3/6/7 Plutus v1/v2/v3 scripts, 4 datums, 5 redeemers, 0 key witnesses) `addred` `adddatum` (an extra redeemer /
+//! datum in the witness set) `dropaux` `auxflip` (auxiliary data), `maxex=<mem>:<steps>` `costmut=<k>` (one number of the cost
+//! model of language k changed: only the script-integrity hash notices) `incoin=<i>:<n>` (lovelace of the UTxO entry of input i).
+//! Synth body options also: `mint` (5 tokens minted under a native-script policy, script and signature supplied) and
+//! `mintnoscript` (the same without the policy script).
 //! `V` = what each `check_*` of the era answers on its own (hook `rule_verdicts`, validator order); `F` = the plain
 //! observations the Lean predicates are stated over (`Model/Rules.lean: View`). Both are produced by the generator for the
-//! Lean side; `run_case` recomputes them.
+//! Lean side; `run_case` recomputes them. `F` also carries the script observations (hashes of witness-set and reference
+//! scripts, script-locked inputs, minted policies, redeemer pointers, datum hashes, used languages, the pieces of the
+//! script-integrity hash); `VAL` / `EX` / `WIT` = the views of the linked rule models of C34 / C37 / C35 in the notation of
+//! their own streams (`value`, `exunits`, `witness`).
 //! reply: `<ok | err Error> | <rule>=<0|1>*` — verdict of `validate_txs`, then the hook verdicts of the rules whose
 //! predicate the model states. The model answers with the first failing rule of its composition and its own predicates.
 //! Oracle (the property): a scenario on which some rule fails (stated predicate evaluated independently here, or a
@@ -60,9 +67,11 @@ fn build_synth(spec: &[&str]) -> Option<Fixture> {
     let ttl: Option<u64> = if opt("nottl").is_some() { None } else { Some(opt("ttl").and_then(|v| v.parse().ok()).unwrap_or(f.env.block_slot + 1000)) };
     let start: Option<u64> = opt("start").and_then(|v| v.parse().ok());
     let netid: Option<u8> = opt("netid").and_then(|v| v.parse().ok());
+    let minting = (opt("mint").is_some() || opt("mintnoscript").is_some()) && era != Era::Shelley;
+    let policy = synth::policy_id(&synth::key(150));
     let outnet: u8 = opt("outnet").and_then(|v| v.parse().ok()).unwrap_or(network);
     let mut b = Encoder::new(Vec::new());
-    b.map(3 + ttl.is_some() as u64 + start.is_some() as u64 + netid.is_some() as u64 + aux_hash.is_some() as u64).unwrap();
+    b.map(3 + ttl.is_some() as u64 + start.is_some() as u64 + netid.is_some() as u64 + aux_hash.is_some() as u64 + minting as u64).unwrap();
     b.u8(0).unwrap();
     if conway { b.tag(Tag::new(258)).unwrap(); }
     b.array(nin as u64).unwrap();
@@ -70,19 +79,24 @@ fn build_synth(spec: &[&str]) -> Option<Fixture> {
     b.u8(1).unwrap().array(2).unwrap();
     for (i, coin) in [out1, out2].iter().enumerate() {
         let addr = synth::key_address(if i == 0 { outnet } else { network }, &synth::key(200));
-        if post { b.map(2).unwrap().u8(0).unwrap().bytes(&addr).unwrap().u8(1).unwrap().u64(*coin).unwrap(); } else { b.array(2).unwrap().bytes(&addr).unwrap().u64(*coin).unwrap(); }
+        if post { b.map(2).unwrap().u8(0).unwrap().bytes(&addr).unwrap().u8(1).unwrap(); } else { b.array(2).unwrap().bytes(&addr).unwrap(); }
+        if minting && i == 0 { b.array(2).unwrap().u64(*coin).unwrap().map(1).unwrap().bytes(policy.as_ref()).unwrap().map(1).unwrap().bytes(&[0x54]).unwrap().u64(5).unwrap(); } else { b.u64(*coin).unwrap(); }
     }
     b.u8(2).unwrap().u64(fee).unwrap();
     if let Some(t) = ttl { b.u8(3).unwrap().u64(t).unwrap(); }
     if let Some(h) = &aux_hash { b.u8(7).unwrap().bytes(h).unwrap(); }
     if let Some(s) = start { b.u8(8).unwrap().u64(s).unwrap(); }
+    if minting { b.u8(9).unwrap().map(1).unwrap().bytes(policy.as_ref()).unwrap().map(1).unwrap().bytes(&[0x54]).unwrap().u64(5).unwrap(); }
     if let Some(n) = netid { b.u8(15).unwrap().u8(n).unwrap(); }
     let body = b.into_writer();
     let txid = Hasher::<256>::hash(&body);
     let mut w = Encoder::new(Vec::new());
-    if conway && nin == 0 { w.map(0).unwrap(); } else {
-        w.map(1).unwrap().u8(0).unwrap().array(nin as u64).unwrap();
+    let with_script = opt("mint").is_some() && minting;
+    if conway && nin == 0 && !minting { w.map(0).unwrap(); } else {
+        w.map(1 + with_script as u64).unwrap().u8(0).unwrap().array(nin as u64 + minting as u64).unwrap();
         for i in 0..nin { let k = synth::key(100 + i as u8); w.array(2).unwrap().bytes(&k.pk).unwrap().bytes(k.sk.sign(txid.as_ref()).as_ref()).unwrap(); }
+        if minting { let k = synth::key(150); w.array(2).unwrap().bytes(&k.pk).unwrap().bytes(k.sk.sign(txid.as_ref()).as_ref()).unwrap(); }
+        if with_script { w.u8(1).unwrap().array(1).unwrap(); w.writer_mut().extend_from_slice(&synth::native_script(&synth::key(150))); }
     }
     f.tx_cbor = txparts::assemble(&txparts::TxParts { body, wits: w.into_writer(), aux, valid: true });
     f.utxo = (0..2).map(|i| {
@@ -123,6 +137,34 @@ fn drop_map_entry(raw: &mut Vec<u8>, key: u64) -> bool {
     for (k, v) in entries { let mut ke = Encoder::new(Vec::new()); ke.u64(k).unwrap(); out.extend(ke.into_writer()); out.extend(v); }
     *raw = out;
     true
+}
+
+/// append one element to the array / set / map stored under `key` of the witness set (definite forms with < 23 entries)
+fn append_to_field(raw: &mut Vec<u8>, key: u64, redeemer: bool) -> bool {
+    let mut d = Decoder::new(raw);
+    let Ok(Some(n)) = d.map() else { return false };
+    for _ in 0..n {
+        let Ok(k) = d.u64() else { return false };
+        let a = d.position();
+        if d.skip().is_err() { return false; }
+        let b = d.position();
+        if k != key { continue; }
+        let mut val = raw[a..b].to_vec();
+        let off = if val.starts_with(&[0xd9, 0x01, 0x02]) { 3 } else { 0 };
+        let head = val[off];
+        let (major, cnt) = (head >> 5, head & 31);
+        if cnt >= 23 || !(major == 4 || major == 5) { return false; }
+        val[off] = head + 1;
+        if redeemer {
+            // spend pointer 97, data `0`, ex-units (0, 0)
+            if major == 5 { val.extend_from_slice(&[0x82, 0x00, 0x18, 0x61, 0x82, 0x00, 0x82, 0x00, 0x00]); } else { val.extend_from_slice(&[0x84, 0x00, 0x18, 0x61, 0x00, 0x82, 0x00, 0x00]); }
+        } else {
+            val.extend_from_slice(&[0x19, 0x30, 0x39]);   // the datum `12345`
+        }
+        raw.splice(a..b, val);
+        return true;
+    }
+    false
 }
 
 /// rewrite one UTxO entry: new address / coin / extra asset
@@ -191,6 +233,27 @@ fn apply(f: &mut Fixture, m: &str) -> bool {
             if !drop_map_entry(&mut parts.wits, key) { return false; }
             // an empty collection (`80`, `d9 0102 80`) is not something a rule can demand
             if before - parts.wits.len() <= 5 { return false; }
+            f.tx_cbor = txparts::assemble(&parts);
+            true
+        }
+        "maxex" => { let Some((a, b)) = v.split_once(':') else { return false }; let (Some(a), Some(b)) = (num(a), num(b)) else { return false }; if params::max_tx_ex_units(&f.env).is_none() { return false; } params::set_max_tx_ex_units(&mut f.env, a, b); true }
+        "costmut" if !uses_language(f, v) => false,
+        "costmut" => match (&mut f.env.prot_params, v) {
+            (P::Conway(p), k) => { let c = &mut p.cost_models_for_script_languages; let m = match k { "1" => c.plutus_v1.as_mut(), "2" => c.plutus_v2.as_mut(), _ => c.plutus_v3.as_mut() }; match m.and_then(|m| m.first_mut()) { Some(x) => { *x += 1; true } None => false } }
+            _ => false,
+        },
+        "incoin" => {
+            let Some((i, n)) = v.split_once(':') else { return false };
+            let (Some(i), Some(n)) = (num(i), num(n)) else { return false };
+            let refs = tx_inputs(f, "in");
+            let Some(r) = refs.get(i as usize).cloned() else { return false };
+            let Some(e) = f.utxo.iter_mut().find(|u| u.input.show() == r) else { return false };
+            edit_utxo(e, false, Some(n), false)
+        }
+        "addred" | "adddatum" => {
+            if f.era == Era::Byron { return false; }
+            let Some(mut parts) = txparts::split(f.era, &f.tx_cbor) else { return false };
+            if !append_to_field(&mut parts.wits, if k == "addred" { 5 } else { 4 }, k == "addred") { return false; }
             f.tx_cbor = txparts::assemble(&parts);
             true
         }
@@ -350,9 +413,192 @@ fn facts_text(v: &View) -> String {
         opt(&v.txnet), v.plutus as u8, v.redeemers as u8, v.maxcol, v.pct, opt(&v.paid), opt(&v.total), v.auxh as u8, v.aux as u8, v.auxm as u8)
 }
 
+
+// ------------------------------------------------------------------------------------------------ script observations
+
+fn hx(b: &[u8]) -> String { hex::encode(b) }
+fn list(v: &[String]) -> String { if v.is_empty() { "-".into() } else { v.join(",") } }
+fn olist(v: &[Option<String>]) -> String { if v.is_empty() { "-".into() } else { v.iter().map(|o| o.clone().unwrap_or("_".into())).collect::<Vec<_>>().join(",") } }
+
+fn script_hash(tag: u8, bytes: &[u8]) -> String { let mut p = vec![tag]; p.extend_from_slice(bytes); hx(Hasher::<224>::hash(&p).as_ref()) }
+
+/// script hash of a UTxO output's payment part, for the output variants the era's validator reads
+fn locked_by_script(era: &str, o: &MultiEraOutput) -> Option<String> {
+    let looked = match era { "shelley" | "alonzo" => o.as_alonzo().is_some(), "babbage" => o.as_babbage().is_some(), _ => o.as_conway().is_some() };
+    if !looked { return None; }
+    match o.address() { Ok(Address::Shelley(sa)) => match sa.payment() { ShelleyPaymentPart::Script(h) => Some(hx(h.as_ref())), _ => None }, _ => None }
+}
+
+fn datum_hash_of(o: &MultiEraOutput) -> Option<String> {
+    match o.datum() { Some(pallas_primitives::conway::DatumOption::Hash(h)) => Some(hx(h.as_ref())), _ => None }
+}
+
+fn script_facts(f: &Fixture) -> Option<String> {
+    use pallas_primitives::conway::ScriptRef;
+    let tx = MultiEraTx::decode_for_era(f.era, &f.tx_cbor).ok()?;
+    let utxos = f.utxos();
+    let era = era_tok(f);
+    // witness-set scripts
+    let native: Vec<String> = match &tx {
+        MultiEraTx::AlonzoCompatible(x, _) => x.transaction_witness_set.native_script.iter().flatten().map(|s| hx(utils::compute_native_script_hash(&s.clone().unwrap()).as_ref())).collect(),
+        _ => tx.native_scripts().iter().map(|s| script_hash(0, s.raw_cbor())).collect(),
+    };
+    let v1: Vec<String> = tx.plutus_v1_scripts().iter().map(|s| script_hash(1, s.as_ref())).collect();
+    let v2: Vec<String> = tx.plutus_v2_scripts().iter().map(|s| script_hash(2, s.as_ref())).collect();
+    let v3: Vec<String> = tx.plutus_v3_scripts().iter().map(|s| script_hash(3, s.as_ref())).collect();
+    let pf = matches!(&tx, MultiEraTx::AlonzoCompatible(x, _) if x.transaction_witness_set.plutus_script.is_some());
+    // reference scripts (post-Alonzo outputs of the era's own variant)
+    let mut refs: Vec<String> = vec![];
+    let mut ref_langs = [false; 3];
+    for i in tx.reference_inputs() {
+        let Some(o) = utxos.get(&i) else { continue };
+        let own = match era { "babbage" => o.as_babbage().is_some(), "conway" => o.as_conway().is_some(), _ => false };
+        if !own { continue; }
+        match o.script_ref() {
+            Some(ScriptRef::NativeScript(n)) => refs.push(script_hash(0, n.raw_cbor())),
+            Some(ScriptRef::PlutusV1Script(p)) => { refs.push(script_hash(1, p.as_ref())); ref_langs[0] = true; }
+            Some(ScriptRef::PlutusV2Script(p)) => { refs.push(script_hash(2, p.as_ref())); ref_langs[1] = true; }
+            Some(ScriptRef::PlutusV3Script(p)) => { refs.push(script_hash(3, p.as_ref())); ref_langs[2] = true; }
+            None => {}
+        }
+    }
+    // mint
+    let mints = tx.mints();
+    let mint_present = match &tx { MultiEraTx::AlonzoCompatible(x, _) => x.transaction_body.mint.is_some(), MultiEraTx::Babbage(x) => x.transaction_body.mint.is_some(), MultiEraTx::Conway(x) => x.transaction_body.mint.is_some(), _ => false };
+    let mut policies: Vec<Vec<u8>> = mints.iter().map(|m| m.policy().to_vec()).collect();
+    let mintp: Vec<String> = policies.iter().map(|p| hx(p)).collect();
+    policies.sort();
+    let spol: Vec<String> = policies.iter().map(|p| hx(p)).collect();
+    // inputs
+    let ins = tx.inputs();
+    let insc: Vec<String> = ins.iter().filter_map(|i| utxos.get(i).and_then(|o| locked_by_script(era, o))).collect();
+    let mut sorted = ins.clone();
+    sorted.sort_by_key(|i| (i.hash().to_vec(), i.index()));
+    let sins: Vec<Option<String>> = sorted.iter().map(|i| utxos.get(i).and_then(|o| locked_by_script(era, o))).collect();
+    // withdrawals (Conway): sorted by (network, script < key, hash)
+    let (mut swd, mut wdok): (Vec<Option<String>>, bool) = (vec![], true);
+    if era == "conway" {
+        let mut parsed: Vec<(u8, bool, Vec<u8>)> = vec![];
+        for (k, _) in tx.withdrawals_sorted_set() {
+            match Address::from_bytes(k) { Ok(Address::Stake(a)) => parsed.push((match a.network() { pallas_addresses::Network::Testnet => 0, pallas_addresses::Network::Mainnet => 1, pallas_addresses::Network::Other(t) => t }, !a.is_script(), a.payload().as_hash().to_vec())), _ => wdok = false }
+        }
+        parsed.sort();
+        swd = parsed.iter().map(|(_, key, h)| if *key { None } else { Some(hx(h)) }).collect();
+    }
+    // redeemers
+    let reds: Vec<String> = tx.redeemers().iter().map(|r| format!("{}.{}", r.tag() as u8, r.index())).collect();
+    // datums
+    let wd: Vec<String> = tx.plutus_data().iter().map(|d| hx(Hasher::<256>::hash(d.raw_cbor()).as_ref())).collect();
+    let resolved = |o: &MultiEraOutput| match era { "alonzo" => o.as_alonzo().is_some(), _ => true };
+    let inres = ins.iter().all(|i| utxos.get(i).map(|o| resolved(o)).unwrap_or(false));
+    let idh: Vec<Option<String>> = ins.iter().map(|i| utxos.get(i).and_then(|o| datum_hash_of(o))).collect();
+    let mut adh: Vec<String> = tx.outputs().iter().filter_map(|o| datum_hash_of(o)).collect();
+    if matches!(era, "babbage" | "conway") {
+        if let Some(r) = tx.collateral_return() { adh.extend(datum_hash_of(&r)); }
+        for i in tx.reference_inputs() { if let Some(o) = utxos.get(&i) { let own = if era == "babbage" { o.as_babbage().is_some() } else { o.as_conway().is_some() }; if own { adh.extend(datum_hash_of(o)); } } }
+    }
+    // languages
+    let mut used: Vec<u8> = vec![];
+    let wl = [!tx.plutus_v1_scripts().is_empty(), !tx.plutus_v2_scripts().is_empty(), !tx.plutus_v3_scripts().is_empty()];
+    for k in 0..3 { if (wl[k] || (era != "alonzo" && ref_langs[k])) && !(era == "babbage" && k == 2) && !(era == "alonzo" && k > 0) { used.push(k as u8); } }
+    let cm: Vec<u8> = match &f.env.prot_params { P::Conway(p) => { let c = &p.cost_models_for_script_languages; [c.plutus_v1.is_some(), c.plutus_v2.is_some(), c.plutus_v3.is_some()].iter().enumerate().filter(|(_, b)| **b).map(|(i, _)| i as u8).collect() } _ => vec![] };
+    // allowed-language flags over inputs + reference inputs (own variant) + outputs
+    let mut all_outs: Vec<MultiEraOutput> = vec![];
+    for i in ins.iter().chain(tx.reference_inputs().iter()) { if let Some(o) = utxos.get(i) { let own = match era { "babbage" => o.as_babbage().is_some(), "conway" => o.as_conway().is_some(), _ => false }; if own { all_outs.push(o.clone()); } } }
+    all_outs.extend(tx.outputs());
+    let addr_bytes = |o: &MultiEraOutput| -> Vec<u8> { match o { MultiEraOutput::AlonzoCompatible(x, _) => x.address.to_vec(),
+        MultiEraOutput::Babbage(x) => match &***x { pallas_primitives::babbage::TransactionOutput::Legacy(l) => l.address.to_vec(), pallas_primitives::babbage::TransactionOutput::PostAlonzo(p) => p.address.to_vec() },
+        MultiEraOutput::Conway(x) => match &***x { pallas_primitives::conway::TransactionOutput::Legacy(l) => l.address.to_vec(), pallas_primitives::conway::TransactionOutput::PostAlonzo(p) => p.address.to_vec() }, _ => vec![] } };
+    let byron = all_outs.iter().any(|o| matches!(Address::from_bytes(&addr_bytes(o)), Ok(Address::Byron(_))));
+    let post_alonzo_form = |o: &MultiEraOutput| match o { MultiEraOutput::Babbage(x) => matches!(&***x, pallas_primitives::babbage::TransactionOutput::PostAlonzo(_)), MultiEraOutput::Conway(x) => matches!(&***x, pallas_primitives::conway::TransactionOutput::PostAlonzo(_)), _ => false };
+    let dsr = all_outs.iter().any(|o| post_alonzo_form(o) && (o.script_ref().is_some() || matches!(o.datum(), Some(pallas_primitives::conway::DatumOption::Data(_)))));
+    let anyref = !tx.reference_inputs().is_empty();
+    // script-integrity hash pieces
+    let (sdhp, renc, dencs, rcount, cmb): (Option<Vec<u8>>, Option<Vec<u8>>, Option<Vec<Vec<u8>>>, usize, Vec<u8>) = match &tx {
+        MultiEraTx::AlonzoCompatible(x, Era::Alonzo) => (x.transaction_body.script_data_hash.map(|h| h.to_vec()),
+            x.transaction_witness_set.redeemer.as_ref().map(|r| minicbor::to_vec(r).unwrap_or_default()),
+            x.transaction_witness_set.plutus_data.as_ref().map(|d| d.iter().map(|p| minicbor::to_vec(&**p).unwrap_or_default()).collect()),
+            x.transaction_witness_set.redeemer.as_ref().map(|r| r.len()).unwrap_or(0), alonzo::verif_hooks::cost_model_bytes()),
+        MultiEraTx::Babbage(x) => {
+            let langs: Vec<pallas_primitives::babbage::Language> = used.iter().map(|k| if *k == 0 { pallas_primitives::babbage::Language::PlutusV1 } else { pallas_primitives::babbage::Language::PlutusV2 }).collect();
+            (x.transaction_body.script_data_hash.map(|h| h.to_vec()),
+             x.transaction_witness_set.redeemer.as_ref().map(|r| minicbor::to_vec(r).unwrap_or_default()),
+             x.transaction_witness_set.plutus_data.as_ref().map(|d| d.iter().map(|p| minicbor::to_vec(&**p).unwrap_or_default()).collect()),
+             x.transaction_witness_set.redeemer.as_ref().map(|r| r.len()).unwrap_or(0),
+             babbage::verif_hooks::cost_model_bytes(&langs, f.env.prot_magic, f.env.network_id, &f.env.block_slot))
+        }
+        MultiEraTx::Conway(x) => (x.transaction_body.script_data_hash.map(|h| h.to_vec()), None, None, 0, vec![]),
+        _ => (None, None, None, 0, vec![]),
+    };
+    let ws = if era == "conway" && sdhp.is_some() { txparts::split(f.era, &f.tx_cbor).map(|p| p.wits).unwrap_or_default() } else { vec![] };
+    let cms: String = match (&f.env.prot_params, era == "conway" && sdhp.is_some()) {
+        (P::Conway(p), true) => { let c = &p.cost_models_for_script_languages; [&c.plutus_v1, &c.plutus_v2, &c.plutus_v3].iter().enumerate().filter_map(|(i, m)| m.as_ref().map(|m| format!("{i}:{}", m.iter().map(|x| x.to_string()).collect::<Vec<_>>().join(".")))).collect::<Vec<_>>().join(";") }
+        _ => String::new(),
+    };
+    let opt_hex = |o: &Option<Vec<u8>>| match o { None => "n".to_string(), Some(b) => hex(b) };
+    Some(format!("mintp={} mint={} nat={} v1={} v2={} v3={} pf={} refs={} insc={} sins={} spol={} swd={} wdok={} reds={} wdat={} inres={} idh={} adh={} used={} cm={} byron={} dsr={} anyref={} magic={} sdhp={} ws={} cms={} renc={} dencs={} rcount={rcount} cmb={}",
+        mint_present as u8, list(&mintp), list(&native), list(&v1), list(&v2), list(&v3), pf as u8, list(&refs), list(&insc), olist(&sins), list(&spol), olist(&swd), wdok as u8,
+        list(&reds), list(&wd), inres as u8, olist(&idh), list(&adh),
+        if used.is_empty() { "-".into() } else { used.iter().map(|k| k.to_string()).collect::<String>() }, if cm.is_empty() { "-".into() } else { cm.iter().map(|k| k.to_string()).collect::<String>() },
+        byron as u8, dsr as u8, anyref as u8, f.env.prot_magic, opt_hex(&sdhp), hex(&ws), if cms.is_empty() { "-".into() } else { cms }, opt_hex(&renc),
+        match &dencs { None => "n".to_string(), Some(v) if v.is_empty() => "-".to_string(), Some(v) => v.iter().map(|b| hex::encode(b)).collect::<Vec<_>>().join(",") }, hex(&cmb)))
+}
+
+// ------------------------------------------------------------------------------------------------ views of the linked models
+
+fn value_token(o: &MultiEraOutput) -> String {
+    let multi = match o {
+        MultiEraOutput::AlonzoCompatible(x, _) => matches!(x.amount, pallas_primitives::alonzo::Value::Multiasset(..)),
+        MultiEraOutput::Babbage(x) => match &***x { pallas_primitives::babbage::TransactionOutput::Legacy(l) => matches!(l.amount, pallas_primitives::alonzo::Value::Multiasset(..)), pallas_primitives::babbage::TransactionOutput::PostAlonzo(p) => matches!(p.value, pallas_primitives::alonzo::Value::Multiasset(..)) },
+        MultiEraOutput::Conway(x) => match &***x { pallas_primitives::conway::TransactionOutput::Legacy(l) => matches!(l.amount, pallas_primitives::alonzo::Value::Multiasset(..)), pallas_primitives::conway::TransactionOutput::PostAlonzo(p) => matches!(p.value, pallas_primitives::conway::Value::Multiasset(..)) },
+        _ => false,
+    };
+    let mut t = format!("{}{}", if multi { "m" } else { "c" }, o.lovelace_amount());
+    if multi { for pa in o.value().assets() { t += &format!(";{}:{}", hx(pa.policy().as_ref()), pa.assets().iter().map(|a| format!("{}={}", hex(a.name()), a.output_coin().unwrap_or(0))).collect::<Vec<_>>().join(",")); } }
+    t
+}
+
+/// `VAL <shelley era 0|1> <modelled 0|1> I n values O m values M mint`
+fn value_section(f: &Fixture) -> Option<String> {
+    let tx = MultiEraTx::decode_for_era(f.era, &f.tx_cbor).ok()?;
+    let utxos = f.utxos();
+    let ins = tx.inputs();
+    let has_certs = !tx.certs().is_empty();
+    let all_in = ins.iter().all(|i| utxos.contains_key(i));
+    let modelled = !has_certs && all_in && !ins.is_empty() && !tx.outputs().is_empty();
+    let spent: Vec<String> = ins.iter().filter_map(|i| utxos.get(i).map(value_token)).collect();
+    let produced: Vec<String> = tx.outputs().iter().map(value_token).collect();
+    let mint_present = match &tx { MultiEraTx::AlonzoCompatible(x, _) => x.transaction_body.mint.is_some(), MultiEraTx::Babbage(x) => x.transaction_body.mint.is_some(), MultiEraTx::Conway(x) => x.transaction_body.mint.is_some(), _ => false };
+    let mint = if !mint_present { "-".to_string() } else {
+        let g: String = tx.mints().iter().map(|pa| format!(";{}:{}", hx(pa.policy().as_ref()), pa.assets().iter().map(|a| format!("{}={}", hex(a.name()), a.mint_coin().unwrap_or(0))).collect::<Vec<_>>().join(","))).collect();
+        if g.is_empty() { ";".to_string() } else { g }
+    };
+    Some(format!("VAL {} {} I {} {} O {} {} M {mint}", (f.era == Era::Shelley) as u8, modelled as u8, spent.len(), spent.join(" "), produced.len(), produced.join(" ")).replace("  ", " "))
+}
+
+/// `EX v1 v2 v3 enc maxmem maxsteps units..`
+fn ex_section(f: &Fixture) -> String {
+    let v = super::exunits::view(f);
+    let (mm, ms) = params::max_tx_ex_units(&f.env).unwrap_or((0, 0));
+    format!("EX {} {} {} {} {mm} {ms}{}", super::exunits::show_cnt(v.v[0]), super::exunits::show_cnt(v.v[1]), super::exunits::show_cnt(v.v[2]), v.enc, super::exunits::units_text(&v.units))
+}
+
+/// `WIT W .. I .. R .. N b` (notation of stream `witness`)
+fn wit_section(f: &Fixture) -> String {
+    if f.era == Era::Byron { return "WIT W none I 0 R none N 1".into(); }
+    let msg = super::witness::tx_id(f);
+    let w = super::witness::base_wits(f);
+    let (vs, _) = super::witness::views(f);
+    format!("WIT {} I {} {} {} N {}", super::witness::wits_text(&w, &msg), vs.len(), vs.join(" "), super::witness::req_text(&super::witness::required_signers(f)), super::witness::native_ok(f) as u8).replace("  ", " ")
+}
+
 const STATED: [&str; 9] = ["insNotEmpty", "insInUtxo", "validity", "txSize", "minLovelace", "valSize", "networkId", "fee", "auxData"];
-fn is_stated(era: &str, r: &str) -> bool {
-    match era { "byron" => matches!(r, "insNotEmpty" | "txSize"), "shelley" => STATED.contains(&r) && r != "valSize", _ => STATED.contains(&r) }
+fn is_stated(era: &str, r: &str, value_modelled: bool) -> bool {
+    match era {
+        "byron" => matches!(r, "insNotEmpty" | "txSize"),
+        "shelley" => (STATED.contains(&r) && r != "valSize") || matches!(r, "minting" | "witnesses") || (r == "preservation" && value_modelled),
+        _ => STATED.contains(&r) || matches!(r, "minting" | "witnesses" | "exUnits" | "languages" | "scriptDataHash" | "wellFormed") || (r == "preservation" && value_modelled),
+    }
 }
 
 /// the stated predicates, evaluated independently (what the *property* demands of an accepted transaction);
@@ -397,7 +643,11 @@ fn op_line(toks: &[String]) -> Option<String> {
     let (f, _) = scenario(toks)?;
     let vs = verdicts(&f)?;
     let v = view(&f)?;
-    Some(format!("rl {} {} | V {} | F {}", era_tok(&f), toks.join(" "), vs.iter().map(|(r, e)| format!("{r}={}", match e { Ok(()) => "ok".to_string(), Err(s) => s.clone() })).collect::<Vec<_>>().join(" "), facts_text(&v)))
+    let byron = f.era == Era::Byron;
+    let sf = if byron { String::new() } else { format!(" {}", script_facts(&f)?) };
+    let val = if byron { "VAL 0 0 I 0 O 0 M -".to_string() } else { value_section(&f)? };
+    let ex = if byron || matches!(f.era, Era::Shelley | Era::Allegra | Era::Mary) { "EX - - - none 0 0".to_string() } else { ex_section(&f) };
+    Some(format!("rl {} {} | V {} | F {}{sf} | {val} | {ex} | {}", era_tok(&f), toks.join(" "), vs.iter().map(|(r, e)| format!("{r}={}", match e { Ok(()) => "ok".to_string(), Err(s) => s.clone() })).collect::<Vec<_>>().join(" "), facts_text(&v), wit_section(&f)))
 }
 
 /// rule-specific mutators for a base (chosen from what the transaction carries)
@@ -421,9 +671,13 @@ fn mutators_for(g: &mut Gen, b: &str) -> Vec<String> {
         for i in 0..c.len().min(2) { m.push(format!("dropcol={i}")); m.push(format!("colscript={i}")); m.push(format!("colassets={i}")); m.push(format!("colcoin={i}:{}", c[i].coin.saturating_sub(1))); m.push(format!("colcoin={i}:1")); }
     }
     for i in 0..v.refs.len().min(2) { m.push(format!("dropref={i}")); }
-    for k in [1u64, 3, 4, 5, 6, 7] { m.push(format!("dropwit={k}")); }
+    for k in [0u64, 1, 3, 4, 5, 6, 7] { m.push(format!("dropwit={k}")); }
+    m.push("addred".into());
+    m.push("adddatum".into());
+    if params::max_tx_ex_units(&f.env).is_some() { m.push("maxex=0:0".into()); m.push("maxex=1:18446744073709551615".into()); }
+    for i in 0..v.nin.min(2) { m.push(format!("incoin={i}:{}", 1_234_567 + i)); }
     if v.aux { m.push("dropaux".into()); m.push("auxflip".into()); }
-    if f.era == Era::Conway { for k in 1..=3 { m.push(format!("nocost={k}")); } }
+    if f.era == Era::Conway { for k in 1..=3 { m.push(format!("nocost={k}")); m.push(format!("costmut={k}")); } }
     m
 }
 
@@ -439,7 +693,7 @@ fn generate_inner(g: &mut Gen) {
     let mut bases: Vec<String> = fixtures::all().iter().map(|f| format!("fx:{}", f.name)).collect();
     for era in ["shelley", "mary", "alonzo", "babbage", "conway"] {
         bases.push(format!("sy:{era}"));
-        for o in ["ins0", "nottl", "ttl=5", "start=999999999999", "netid=0", "netid=1", "outnet=0", "outcoin=100", "outcoin=999999", "auxhash", "aux", "auxbad"] { bases.push(format!("sy:{era}:{o}")); }
+        for o in ["ins0", "nottl", "ttl=5", "start=999999999999", "netid=0", "netid=1", "outnet=0", "outcoin=100", "outcoin=999999", "auxhash", "aux", "auxbad", "mint", "mintnoscript"] { bases.push(format!("sy:{era}:{o}")); }
     }
     // every base unmutated and with each of its single mutators (this part is exhaustive and seed-independent)
     let mut all_single: Vec<Vec<String>> = vec![];
@@ -468,7 +722,11 @@ fn generate_inner(g: &mut Gen) {
 /// which rule a witness-level / parameter mutator is aimed at when it removes something the transaction needs
 fn aimed_rule(m: &str) -> Option<&'static str> {
     let k = m.split('=').next().unwrap_or("");
-    match k { "dropwit" => Some("witnesses-scripts-datums-redeemers"), "nocost" => Some("languages-or-script-integrity"), _ => None }
+    match k {
+        "dropwit" => Some("witnesses-scripts-datums-redeemers"), "nocost" => Some("languages-or-script-integrity"),
+        "addred" => Some("redeemer-coverage"), "adddatum" => Some("datum-witnesses"), "costmut" => Some("script-integrity-hash"),
+        "incoin" => Some("preservation"), _ => None,
+    }
 }
 
 pub fn run_case(case: &Case, out: &mut Out) {
@@ -479,7 +737,8 @@ pub fn run_case(case: &Case, out: &mut Out) {
         let era = era_tok(&f);
         let (Some(vs), Some(v)) = (verdicts(&f), view(&f)) else { out.reply("bad-op undecodable".into()); continue };
         let res = guard_mut(|| f.validate());
-        let stated_bits: String = vs.iter().filter(|(r, _)| is_stated(era, r)).map(|(r, e)| format!(" {r}={}", e.is_ok() as u8)).collect();
+        let value_modelled = f.era != Era::Byron && value_section(&f).map(|t| t.split(' ').nth(2) == Some("1")).unwrap_or(false);
+        let stated_bits: String = vs.iter().filter(|(r, _)| is_stated(era, r, value_modelled)).map(|(r, e)| format!(" {r}={}", e.is_ok() as u8)).collect();
         let accepted = matches!(res, Some(Ok(())));
         match &res {
             None => { out.viol(format!("panic-in-validation era={era}"), op[2..bar].join(" ")); out.panic(); }
